@@ -306,6 +306,11 @@ class HierDriver(explore.Driver):
                     bad(HB + ".__getitem__", "wrong-feature-data",
                         f"level {L} {kind} differs from the root data at "
                         f"root ids {ri.tolist()}", kind=kind)
+            # the first read of one feature converts it to another dtype;
+            # the plain reads that follow still show the root's values
+            probe("scalar-as-float32", lambda: gen.arrays_equal(
+                np.asarray(ds[FEATS[0]], dtype=np.float32),
+                np.asarray(data[FEATS[0]])[ri].astype(np.float32)))
             for feat in FEATS + ["frame"]:
                 probe("scalar", lambda f=feat: gen.arrays_equal(
                     ds[f][:], data[f][ri]))
